@@ -1,7 +1,7 @@
 """C14 - retry makes exactly the allowed attempts and reports the true last outcome.
 
 The wrapped function is a scripted test double: its k-th invocation produces the k-th outcome of a
-sequence over {S success, MC / MS haiway's own MissingContext / MissingState, G exception group holding one exception of the caught class, C caught exception, Cs subclass of caught, U uncaught Exception,
+sequence over {S success, CT a caught exception raised from a CancelledError, MC / MS haiway's own MissingContext / MissingState, G exception group holding one exception of the caught class, C caught exception, Cs subclass of caught, U uncaught Exception,
 X CancelledError, XC a CancelledError subclass that is also an instance of the caught class, B other BaseException}; every value / exception object is unique, so identity
 tells which attempt the caller finally saw. A 15-line reference loop predicts: number of
 invocations, the caller's outcome object, the pauses (virtual-clock gaps for async, recorded
@@ -90,6 +90,9 @@ def sequences(limit: int):  # noqa: ANN201
         yield pre
     yield ("G",) * (limit + 1)
     yield ("MC",) * (limit + 1)
+    yield ("CT",) * (limit + 1)
+    yield ("CT", "S")
+    yield ("C", "CT", "S")
     yield ("MS", "C") * limit
     yield ("C", "G") * limit
 
@@ -101,6 +104,12 @@ def make_outcome(kind: str, i: int) -> tuple[str, Any]:
         # what a function built on a task group raises when one of its tasks failed: an exception group with a single member of the caught
         # class. The group is the exception; it is an instance of ExceptionGroup / Exception, not of its member's class
         return "raise", ExceptionGroup(f"attempt-{i}", [CaughtErr(f"attempt-{i}-member")])
+    if kind == "CT":
+        # a caught exception raised FROM a cancellation (`raise TimeoutError from cancelled`: what asyncio.timeout / wait_for inside the
+        # function do when their own deadline passes - the task's cancel request was already taken back): an ordinary failure
+        exc = CaughtErr(f"attempt-{i}")
+        exc.__cause__ = asyncio.CancelledError("deadline of a step inside the function")
+        return "raise", exc
     if kind in ("MC", "MS"):
         # the library's own exception types (a state lookup outside every scope / of a type nobody supplied): ordinary Exceptions for retry
         import haiway
